@@ -84,6 +84,12 @@ func TestWorker(t *testing.T) {
 		if p == nil {
 			t.Fatalf("no generator for %s", spec.Property)
 		}
+		// execute exactly what a replay file would hold: the plan after a JSON round trip
+		var rt Plan
+		if err := json.Unmarshal(MarshalPlan(p), &rt); err != nil {
+			t.Fatalf("plan does not round-trip: %v", err)
+		}
+		p = &rt
 		if spec.Progress != "" {
 			os.WriteFile(spec.Progress, []byte(fmt.Sprintf("%d %x", i, p.Seed)), 0o644)
 		}
